@@ -41,8 +41,8 @@ CLAIMED = {
              note='bounds: 6 ops quick / 9 thorough for the counter, 6 for LocalWaker; capacity 0..3; no models', ref='§5 C17'),
  'C18': dict(engine='mirsym', tech=S_TECH, text='PARTIAL: the rustls-0_23 and OpenSSL acceptor services, one run each (Acceptor::new_service, AcceptorService::{poll_ready,call}, AcceptFut::poll) with the real actix-utils Counter and local-waker: every order of readiness queries, calls, polls, drops and clock advances with up to 3-4 concurrent calls; handshake answers, the timeout, the maximum and clock increments are solver variables: Ok only from a completed handshake, Tls error only from a failed one, Timeout exactly at the first poll at/after the deadline, not-ready exactly while in-progress handshakes reach the maximum, and the waiting task is woken when one ends (success, error, timeout, drop)',
              note='trusted: mirsym + models (scripted tokio_rustls::Accept / tokio_openssl::SslStream::poll_accept, virtual-clock Sleep, thread_local as one Counter per world), validated per run against the real actix-tls compiled natively with the model back end. NOT covered: the native-tls / older rustls acceptors (same shape, not encoded), and everything inside the TLS library: real handshakes, stalled/garbage clients, bytes arriving unchanged', ref='§5 C18'),
- 'C19': dict(engine='mirsym', tech=S_TECH, text='PARTIAL: ConnectInfo builders, ResolverService::call precedence, ResolverFut::poll (resolved and default-lookup arms), TcpConnectorFut fallback loop, ConnectServiceResponse state machine and the rustls-0_23 and OpenSSL TlsConnectorService: pre-resolved requests are never re-resolved, IP literals are dialled at the request port without lookup, other hosts go through the resolver once with (hostname, port); empty -> NoRecords, failure -> Resolver, unresolved TCP input -> Unresolved; dial order = list order, stop at first success returning that stream, all fail -> Io(last); local bind address reaches every dial; the TLS connector hands exactly Connection::hostname() to the back end, invalid name -> error (rustls; OpenSSL passes every name to the library), failure propagated, success wraps the same stream and keeps the request',
-             note='trusted: mirsym + models (scripted connect()/lookup/handshake futures logging their arguments); this driver has no native differential validation. NOT covered: the custom-resolver arm (async block), Host for String/&str parsing, the body of connect() (v4/v6 bind), real DNS, certificate validity / issuers / data integrity (inside the TLS library)', ref='§5 C19'),
+ 'C19': dict(engine='mirsym', tech=S_TECH, text='PARTIAL: ConnectInfo builders, ResolverService::call precedence, ResolverFut::poll (resolved, default-lookup and custom-resolver arms; the custom arm and `async fn connect` run as the compiler-generated coroutine state machines with suspension), TcpConnectorFut fallback loop, the connect() body (v4/v6 socket, bind to the local address with port 0), ConnectServiceResponse state machine and the rustls-0_23 and OpenSSL TlsConnectorService: pre-resolved requests are never re-resolved, IP literals are dialled at the request port without lookup, other hosts go through the resolver once with (hostname, port); empty -> NoRecords, failure -> Resolver, unresolved TCP input -> Unresolved; dial order = list order, stop at first success returning that stream, all fail -> Io(last); local bind address reaches every dial; the TLS connector hands exactly Connection::hostname() to the back end, invalid name -> error (rustls; OpenSSL passes every name to the library), failure propagated, success wraps the same stream and keeps the request',
+            note='trusted: mirsym + models (scripted dial / lookup / handshake futures logging their arguments), validated per run against the real actix-tls connector compiled natively with the same scripted back ends (166 traces quick); counterexamples are replayed natively and judged on the native trace (except the default-lookup arm, which natively is the real getaddrinfo). NOT covered: Host for String/&str parsing, real DNS, certificate validity / issuers / data integrity (inside the TLS library)', ref='§5 C19'),
  'C20': dict(engine='kani', tech=K_TECH, text='real bytestring on the real bytes crate: every fallible constructor accepts exactly the byte strings str::from_utf8 (and an independent validator) accepts, for every byte string of the stated lengths; split_at panics exactly off char boundaries; slice_ref, Eq, Ord, Hash, Deref agree with str',
              note='no models; bounds: lengths 0..4 quick / 0..5 thorough, one harness per concrete length', ref='§5 C20'),
  'C16': dict(engine='mirsym', tech=S_TECH, text='every operation sequence on the real local-channel (MIR of mpsc.rs + local-waker) up to the depth bound with symbolic payloads and symbolic acting sender, reference queue model stepped alongside',
